@@ -1398,3 +1398,21 @@ M('C20-vector-add-guard-narrowed', 'C20', TUTIL,
   "    def __add__(self, other):\n        return NotImplemented if not isinstance(other, Vector) else \\",
   "    def __add__(self, other):\n        return NotImplemented if not isinstance(other, type(self)) else \\",
   rule='R20.5')
+
+# R05.4 / R20.5 by evaluation (the text rules they replace alarmed on the twins)
+M('C05-id-property-off-by-one', 'C05', 'minecraft/networking/packets/packet.py',
+  "        return None if self.context is None else self.get_id(self.context)",
+  "        return None if self.context is None else self.get_id(self.context) + 1",
+  rule='R05.4')
+M('C05-twin-id-property-local-context', 'C05', 'minecraft/networking/packets/packet.py',
+  "        return None if self.context is None else self.get_id(self.context)",
+  "        context = self.context\n        return None if context is None else self.get_id(context)",
+  expect='silent')
+M('C20-all-slots-derived-first', 'C20', TUTIL,
+  "        for supcls in reversed(cls.__mro__):",
+  "        for supcls in cls.__mro__:",
+  rule='R20.5')
+M('C20-twin-all-slots-respelt', 'C20', TUTIL,
+  "        for supcls in reversed(cls.__mro__):\n            slots = supcls.__dict__.get('__slots__', ())",
+  "        for supcls in cls.__mro__[::-1]:\n            slots = vars(supcls).get('__slots__', ())",
+  expect='silent')
